@@ -39,10 +39,20 @@ class View:
     keys = smt.F
     items = smt.F
     ord_ = smt.F
+    iter_ok = smt.T      # plain (value) iteration is defined; ItemsDataset: only with items
 
     def ref(self):
         """z3 DS term if this view is an abstract dataset (else None)."""
         return None
+
+    def refusal(self):
+        """(position, exception) at which a with_key iteration fails when ITEMS is false:
+        pairs before that position are still correct (I-items, refusing branch)."""
+        if not hasattr(self, '_refusal'):
+            p = smt.fresh('iref', smt.Int)
+            AX.add(z3.And(p >= 0, p <= self.n()))
+            self._refusal = (p, smt.fresh('iexc', smt.Exc))
+        return self._refusal
 
 
 class Axioms:
@@ -66,6 +76,7 @@ class Axioms:
 
 
 AX = Axioms()
+RESET_HOOKS = []
 
 
 class AbsView(View):
@@ -84,6 +95,10 @@ class AbsView(View):
 
     def ref(self):
         return self.d
+
+    def refusal(self):
+        AX.add(z3.And(smt.IREF(self.d) >= 0, smt.IREF(self.d) <= smt.N(self.d)))
+        return smt.IREF(self.d), smt.IEXC(self.d)
 
     def n(self):
         return smt.N(self.d)
@@ -175,8 +190,7 @@ def call_getitem_key(view, k, hier):
 
 
 def keys_seq(view):
-    j = smt.fresh('kj', smt.Int)
-    s = SymSeqV(view.n(), j, KeyV(view.key(j)), 'tuple')
+    s = SymSeqV(view.n(), lambda e: KeyV(view.key(e)), 'tuple')
     s.keyview = view
     return s
 
@@ -221,6 +235,24 @@ class StreamView:
 
     def exc(self, k):
         return self._exc(k)
+
+
+def refused_items_stream(view):
+    """I-items when ITEMS is false: correct pairs up to the refusal position, then an exception."""
+    rp, rexc = view.refusal()
+    return StreamView(rp + 1, lambda k: z3.Or(view.raises(k), k == rp),
+                      lambda k: TupleV([KeyV(view.key(k)), view.val(k)]),
+                      lambda k: z3.If(z3.And(view.raises(k), k < rp), view.exc(k),
+                                      z3.If(k == rp, rexc, view.exc(k))),
+                      desc='items-refused(%s)' % view.name, source=view)
+
+
+def refused_values_stream(view):
+    rp, rexc = view.refusal()
+    return StreamView(rp + 1, lambda k: z3.Or(view.raises(k), k == rp), view.val,
+                      lambda k: z3.If(z3.And(view.raises(k), k < rp), view.exc(k),
+                                      z3.If(k == rp, rexc, view.exc(k))),
+                      desc='iter-refused(%s)' % view.name, source=view)
 
 
 def iter_stream(view, with_key=False):
